@@ -2101,6 +2101,7 @@ func init() {
 
 func runR94(c *Ctx) {
 	p := c.P
+	r94StrictTravels(c)
 	// (a)
 	n := 0
 	for _, fn := range p.FuncsIn("internal/ecolumn") {
@@ -2119,6 +2120,10 @@ func runR94(c *Ctx) {
 			if !ok {
 				if _, isConst := st.Val.(*ssa.Const); isConst {
 					c.okTrivial(key, p.instrPos(st), "constant")
+					return
+				}
+				if fld, _ := fieldOf(st.Val); fld != nil && fld.Name() == "strict" {
+					c.okTrivial(key, p.instrPos(st), "copied from the source column (clause c)")
 					return
 				}
 				c.undecided(key, p.instrPos(st), "the strict flag is "+describe(st.Val))
@@ -3187,4 +3192,97 @@ func alwaysError(fn *ssa.Function, d int) bool {
 		}
 	})
 	return all && n > 0
+}
+
+
+// r94StrictTravels (clause c): a Column literal that takes over the values table of an existing column takes
+// over that column's strict flag as well. The table and the flag belong together: a column derived from a
+// declared enum (Subset for GroupBy/Aggregate results) that silently becomes non-strict accepts undeclared
+// filter constants that its source rejects.
+func r94StrictTravels(c *Ctx) {
+	p := c.P
+	col := p.Named("internal/ecolumn", "Column")
+	if col == nil {
+		return
+	}
+	st, ok := col.Underlying().(*types.Struct)
+	if !ok {
+		return
+	}
+	fieldIdx := func(name string) int {
+		for i := 0; i < st.NumFields(); i++ {
+			if st.Field(i).Name() == name {
+				return i
+			}
+		}
+		return -1
+	}
+	vi, si := fieldIdx("values"), fieldIdx("strict")
+	if vi < 0 || si < 0 {
+		c.undecided("internal/ecolumn.Column|fields", "-", "values / strict fields not found")
+		return
+	}
+	isCol := func(t types.Type) bool {
+		n, ok := deref(t).(*types.Named)
+		return ok && n.Obj() == col.Obj()
+	}
+	// source column of a field load x.values / x.strict
+	srcOf := func(v ssa.Value, idx int) (ssa.Value, bool) {
+		switch t := v.(type) {
+		case *ssa.Field:
+			if t.Field == idx && isCol(t.X.Type()) {
+				return t.X, true
+			}
+		case *ssa.UnOp:
+			if fa, ok := t.X.(*ssa.FieldAddr); ok && t.Op == token.MUL && fa.Field == idx && isCol(fa.X.Type()) {
+				return fa.X, true
+			}
+		}
+		return nil, false
+	}
+	for _, fn := range p.FuncsIn("internal/ecolumn") {
+		eachInstr(fn, func(in ssa.Instruction) {
+			al, ok := in.(*ssa.Alloc)
+			if !ok || !isCol(al.Type()) {
+				return
+			}
+			var valuesSrc, strictSrc ssa.Value
+			hasStrictStore := false
+			for _, r := range *al.Referrers() {
+				fa, ok := r.(*ssa.FieldAddr)
+				if !ok {
+					continue
+				}
+				for _, r2 := range *fa.Referrers() {
+					s2, ok := r2.(*ssa.Store)
+					if !ok || s2.Addr != ssa.Value(fa) {
+						continue
+					}
+					if fa.Field == vi {
+						if src, ok := srcOf(s2.Val, vi); ok {
+							valuesSrc = src
+						}
+					}
+					if fa.Field == si {
+						hasStrictStore = true
+						if src, ok := srcOf(s2.Val, si); ok {
+							strictSrc = src
+						}
+					}
+				}
+			}
+			if valuesSrc == nil {
+				return
+			}
+			key := fname(fn) + "|strict flag travels with the values table"
+			switch {
+			case strictSrc != nil && accessPath(strictSrc) == accessPath(valuesSrc):
+				c.ok(key, p.instrPos(al), "values and strict are taken from the same column")
+			case hasStrictStore:
+				c.bad(key, p.instrPos(al), "the column takes its values table from one column and its strict flag from somewhere else")
+			default:
+				c.bad(key, p.instrPos(al), "the column takes over the values table of an existing column but not its strict flag: the derived column is not strict, so a filter constant outside the declared values is accepted where the source column reports an error")
+			}
+		})
+	}
 }
